@@ -413,6 +413,96 @@ async def _part_noraise(ctx, rng, loop):
 
 
 # ---------------------------------------------------------------------------
+# part 6: instances built from keyrings (corner set over group keys x sender table)
+
+def _keyring_projects(ctx, rng):
+    """(label, project, order): own corner product + the writer's corner set (only those that carry at least one group key)."""
+    from vlib import keyring_writer as W
+    from vlib.ds_harness import make_project
+
+    out = []
+    for nkeys in (1, 3):
+        for senders in ("none", "one", "many"):
+            for devices in ("absent", "with-counter", "without-counter"):
+                for itf in ("no-interface", "interface-without-groups", "interface-with-senders"):
+                    gas = rng.sample(range(1, 0x10000), nkeys)
+                    keys = {g: rng.randbytes(16) for g in gas}
+                    n = {"none": 0, "one": 1, "many": 4}[senders]
+                    ias = rng.sample(range(1, 0xFFFF), n)
+                    dev = None if devices == "absent" else {ia: (rng.randrange(1, 1 << 40) if devices == "with-counter" else None) for ia in ias}
+                    isend = {gas[0]: ias} if itf == "interface-with-senders" else None
+                    if devices == "absent" and itf != "interface-with-senders" and n:
+                        continue  # nowhere to put the senders: same keyring as senders == none
+                    out.append((f"{nkeys}keys-{senders}-senders-devices-{devices}-{itf}",
+                                make_project(keys, dev, isend, 1 if itf == "interface-without-groups" else 0), "BIGD"))
+    corner = [c for c in W.corner_projects() if any(k is not None for _, k in (c[1].group_keys or []))]
+    return out, corner
+
+
+def _part_keyring_instances(ctx, rng, loop):
+    from vlib.ds_harness import load_project_keyring, project_tables
+
+    own, corner = _keyring_projects(ctx, rng)
+    step = ctx.scale(7, 1)
+    todo = own[:: ctx.scale(2, 1)] + corner[rng.randrange(step) :: step]
+    for idx, (label, project, order) in enumerate(todo):
+        if not ctx.mine(idx):
+            continue
+        keys, senders = project_tables(project)
+        try:
+            keyring = load_project_keyring(project, rng, order)
+        except Exception as exc:  # noqa: BLE001 - loading keyrings is C31's business
+            ctx.count(f"keyring_not_loaded_{type(exc).__name__}")
+            continue
+        node = Node.from_keyring(keyring, own_address=0x1F01)
+        ctx.count("keyring_instances")
+        ctx.count("keyring_instances_without_senders" if not senders else "keyring_instances_with_senders")
+        listed_without_key = [ga for ga, k in (project.group_keys or []) if k is None]
+        unkeyed = next(g for g in range(0x7000, 0x7100) if g not in keys)
+        wit0 = {"keyring": label, "keyed_gas": sorted(keys), "senders": sorted(senders), "data_secure_active": node.ds is not None}
+        for ga in sorted(keys):
+            # incoming plain frame to a GA that has a key in the keyring
+            raw = ref.plain_ldata(b"\x00\x81", sa=(sorted(senders) or [0x1234])[0], da=ga, group=True)
+            out = node.feed(raw)
+            ctx.ev()
+            ctx.distinct(("keyring", len(keys), min(len(senders), 2), out.kind(), node.ds is not None))
+            wit = dict(wit0, raw=raw, outcome=out.kind(), key_issue=len(out.key_issue))
+            if out.exc is not None:
+                ctx.violation(f"keyring-instance-plain-frame-raises-{type(out.exc).__name__}", wit, "receive path raised")
+            elif out.delivered:
+                ctx.violation("keyring-instance-delivers-plain-frame-to-keyed-ga" + ("-empty-sender-table" if not senders else ""), wit,
+                              f"keyring {label}: plain frame to {ga:#06x}, which has a key in the keyring, was delivered")
+            elif len(out.key_issue) != 1:
+                ctx.violation("keyring-instance-plain-frame-to-keyed-ga-key-issue-callback-not-once", wit,
+                              f"key-issue callback called {len(out.key_issue)} times")
+            else:
+                ctx.count("keyring_plain_to_keyed_rejected")
+            # outgoing telegram to the keyed GA
+            n = len(node.iface.sent)
+            try:
+                loop.run(node.xknx.cemi_handler.send_telegram(Telegram(destination_address=GroupAddress(ga), payload=group_payload(rng, 2))),
+                         max_vtime=30)
+            except Exception as exc:  # noqa: BLE001
+                ctx.count(f"keyring_send_raised_{type(exc).__name__}")
+            for _cemi, sent in node.iface.sent[n:]:
+                ctx.ev()
+                if apci_of(sent) != 0x3F1:
+                    ctx.violation("keyring-instance-sends-plain-to-keyed-ga" + ("-empty-sender-table" if not senders else ""),
+                                  dict(wit0, raw=sent), f"keyring {label}: telegram to keyed GA {ga:#06x} left as plain frame")
+                else:
+                    ctx.count("keyring_outgoing_secured")
+        for ga in listed_without_key[:1] + [unkeyed]:
+            out = node.feed(ref.plain_ldata(b"\x00\x81", sa=0x1234, da=ga, group=True))
+            ctx.ev()
+            if len(out.delivered) == 1 and not out.key_issue:
+                ctx.count("keyring_plain_to_unkeyed_delivered")
+            else:
+                ctx.inconclusive(f"control failed: keyring {label}: plain frame to GA without key: {out.kind()}")
+    if len(ctx.samples) < 8:
+        ctx.sample({"part": "keyring-instances", "keyrings": len(todo), "labels": [t[0] for t in todo[:4]]})
+
+
+# ---------------------------------------------------------------------------
 # part 5: callbacks that change the registrations while they are being called
 
 class _Cb:
@@ -741,6 +831,8 @@ def run(ctx):
     ctx.require("mutation_frames", "mutation_frame_plain_keyed", "mutation_frame_bad_mac", "mutation_returned_normally",
                 "stable_key_issue_callbacks_checked", "frames_with_key_issue_registration_change", "frames_with_telegram_registration_change",
                 "consumer_alive_after_callback_mutation")
+    ctx.require("keyring_instances", "keyring_instances_without_senders", "keyring_instances_with_senders", "keyring_plain_to_keyed_rejected",
+                "keyring_outgoing_secured", "keyring_plain_to_unkeyed_delivered")
     ctx.require("interface_scenarios", "interface_tcp", "interface_udp", "interface_plain_to_keyed_with-connect-response",
                 "interface_plain_to_keyed_right-after-connect-response", "interface_plain_to_keyed_later",
                 "interface_key_issue_reported_once", "interface_unkeyed_delivered", "interface_outgoing_secured")
@@ -767,6 +859,7 @@ def run(ctx):
                 if ctx.mine(i):
                     _run_async(ctx, loop, _part_callback_mutation(ctx, rng, loop), "callback-mutation")
             _run_async(ctx, loop, _part_noraise(ctx, rng, loop), "no-raise")
+            _part_keyring_instances(ctx, rng, loop)
     finally:
         leaked = loop.finish()
         ctx.extra["tasks_left_at_end"] = len(leaked)
